@@ -186,6 +186,17 @@ register(
     "DESIGN.md §3 C18",
 )
 
+register(
+    "C14",
+    "bounded-exhaustive enumeration of every CORD2R/C/S chain of depth 1-3 (each system defined in its parent's own coordinate type) x geometry sets x points x query systems x reference-point forms, against an independent closed-form resolution of the chain; RBE3 option grid; basic-system replacement",
+    "For every chain every grid is entered in every system and queried in every system and in basic (as grid id, as "
+    "definition and as xyz); the resolved 5x3 coordinate info, the returned coordinates (compared as points), the "
+    "local-frame rigid-body modes, rbmove/rbcoords identities, RBE3 rigid-motion reproduction and the invariants of "
+    "replace_basic_cs are checked against own geometry.",
+    "Trusted: closed-form maps in vf/checks/c14.py; fixed non-axis-aligned geometry sets; points away from the polar axes.",
+    "DESIGN.md §3 C14",
+)
+
 
 def build():
     checks = []
